@@ -139,16 +139,20 @@ def analyse(sym, info):
     reent = []
     for a in f.addrs:
         i = u.insns[a]
-        if i.mn != 'jmp' or i.target not in heads or not (a > heads[i.target]) or a not in L.IN:
+        if i.mn != 'jmp' or i.target is None or a not in L.IN:
             continue
-        h, b = i.target, heads[i.target]
+        # innermost loop [h, b] that the jump enters from behind (at its head or, for kernels that keep part of the state across the extra pass, in its middle)
+        encl = [(b_ - h_, h_, b_) for h_, b_ in heads.items() if h_ <= i.target <= b_ and a > b_]
+        if not encl:
+            continue
+        _, h, b = min(encl)
         stb = L.IN.get(b)
         if stb is None:
             continue
         # induction registers of the loop and their strides
         strides = {}
         for r, form in stb['r'].items():
-            js = [k for k in form if isinstance(k, tuple) and k[0] == 'J' and k[1] == h and k[2] == r]
+            js = [k for k in form if isinstance(k, tuple) and k[0] == 'J' and k[1] in (h, i.target) and k[2] == r]
             if len(js) == 1 and form[js[0]] == 1 and set(form) <= {js[0], 1} and form.get(1, 0):
                 strides[r] = form[1]
         S = {'r': dict(L.IN[a]['r']), 'm': dict(L.IN[a]['m'])}
@@ -164,7 +168,7 @@ def check(rep, suffix, families, floor_guard, floor_reent, not_decided=()):
                  'follow), the condition of the quiet edge - read off the compare it depends on, D = op0 - op1 in whole-function linear forms with lockstep classes - implies len@entry - cursor <= 0 for the cursor register '
                  'that indexes the buffers: the kernel never stops while bytes remain.  Branches decided by loaded data or by one bit of a count (binary decomposition of a tail) are not length guards and are counted apart',
                  floor=floor_guard, unit='tail guards')
-    Q = None if floor_reent is None else rep.rule('R-TAIL-REENTRY-' + suffix, 'a jmp from behind a loop back to its head (the overlapped last vector) enters with the cursor at len@entry - stride, so that the extra pass ends exactly at the end of the buffers',
+    Q = None if floor_reent is None else rep.rule('R-TAIL-REENTRY-' + suffix, 'a jmp from behind a loop back into it (the overlapped last vector) enters with the cursor at len@entry - stride, so that the extra pass ends exactly at the end of the buffers',
                  floor=floor_reent, unit='re-entries')
     res, _ = provenance.analyse('default')
     nk, other = 0, collections.Counter()
